@@ -508,6 +508,245 @@ func pureCase(r *hx.Rng, i int, pk vrf.VRFPublicKey, sk vrf.VRFPrivateKey, ppk v
 	return calls
 }
 
+// ---- curve layer: values extracted from the real edwards25519 code for coq/C16/Curve.v ----
+var cv *hx.Cases // cheap single-step cases
+var cw *hx.Cases // whole verifications / subgroup checks: one case per shard
+
+type kp struct {
+	pk vrf.VRFPublicKey
+	sk vrf.VRFPrivateKey
+}
+
+func feInt(f *edwards25519.FieldElement) *big.Int {
+	var b [32]byte
+	edwards25519.FeToBytes(&b, f)
+	return leInt(b[:])
+}
+
+func ptTerm(p *edwards25519.ExtendedGroupElement) string {
+	return fmt.Sprintf("(Q4 %s %s %s %s)", zlit(feInt(&p.X)), zlit(feInt(&p.Y)), zlit(feInt(&p.Z)), zlit(feInt(&p.T)))
+}
+
+func scalarBytes(k *big.Int) *[32]byte {
+	var b [32]byte
+	be := k.Bytes()
+	for i := range be {
+		b[i] = be[len(be)-1-i]
+	}
+	return &b
+}
+
+// the steps of ECVRFVerify with the same library calls, keeping the intermediate values
+func verifyTrace(pk []byte, pi []byte, m []byte) (h, u, v [32]byte, cp [16]byte, ok bool) {
+	var g, H, Y, sB, U, V edwards25519.ExtendedGroupElement
+	var gb, pkb, c, sr [32]byte
+	var s64 [64]byte
+	copy(gb[:], pi[:32])
+	if !ed25519.VerifStringToPoint(&g, gb) {
+		return
+	}
+	copy(c[:], pi[32:48])
+	copy(s64[:], pi[48:80])
+	edwards25519.ScReduce(&sr, &s64)
+	h = ed25519.VerifHashToCurve(m, ed25519.PublicKey(pk))
+	H.FromBytes(&h)
+	copy(pkb[:], pk)
+	Y.FromBytes(&pkb)
+	var cache edwards25519.CachedGroupElement
+	var r edwards25519.CompletedGroupElement
+	edwards25519.GeScalarMult(&Y, &c).ToCached(&cache)
+	edwards25519.GeScalarMultBase(&sB, &sr)
+	edwards25519.GeSub(&r, &sB, &cache)
+	r.ToExtended(&U)
+	edwards25519.GeScalarMult(&g, &c).ToCached(&cache)
+	sH := edwards25519.GeScalarMult(&H, &sr)
+	edwards25519.GeSub(&r, sH, &cache)
+	r.ToExtended(&V)
+	cp = ed25519.VerifHashPoints(H, g, U, V)
+	U.ToBytes(&u)
+	V.ToBytes(&v)
+	return h, u, v, cp, true
+}
+
+func verifyCase(pk, pi, m []byte, kind string, sub bool) {
+	h, u, v, cp, ok := verifyTrace(pk, pi, m)
+	if !ok {
+		return
+	}
+	cl := verifyClass(pk, pi, m)
+	traceAccept := bytes.Equal(cp[:], pi[32:48])
+	in := map[string]interface{}{"pk": hexs(pk), "proof": hexs(pi), "msg": hexs(m), "H": hexs(h[:]), "U": hexs(u[:]), "V": hexs(v[:]), "hashPoints": hexs(cp[:])}
+	if traceAccept != (cl == "accept") {
+		res.Violate("C16/model-tie:verify-trace", "VRFVerify says "+cl+" but the same steps taken one by one compare the challenge as "+fmt.Sprint(traceAccept), in)
+	}
+	res.Count("curve:verify-equations:"+kind+":"+cl, id([]byte("KV"), pk, pi, m), true)
+	cw.Add(fmt.Sprintf("KV %s %s %s %s %s %s %s %s", hx.CoqHex(pk), hx.CoqHex(pi), hx.CoqHex(h[:]), hx.CoqHex(u[:]), hx.CoqHex(v[:]), hx.CoqHex(cp[:]),
+		hx.CoqBool(cl == "accept"), hx.CoqBool(sub)), map[string]interface{}{"kind": "verify-equations", "origin": kind, "in": in, "verify": cl})
+}
+
+func curveSection(r *hx.Rng, keys []kp, thorough bool) {
+	pfield, _ := new(big.Int).SetString("57896044618658097711785492504343953926634992332820282019728792003956564819949", 10)
+	randPoint := func() *edwards25519.ExtendedGroupElement { // general Z, as the code produces it
+		var p edwards25519.ExtendedGroupElement
+		var k [64]byte
+		copy(k[:], r.Bytes(64))
+		var kr [32]byte
+		edwards25519.ScReduce(&kr, &k)
+		edwards25519.GeScalarMultBase(&p, &kr)
+		return &p
+	}
+	torsionPoint := func(i int) *edwards25519.ExtendedGroupElement {
+		var p edwards25519.ExtendedGroupElement
+		var s [32]byte
+		b, _ := hex.DecodeString(torsions[i%3].enc)
+		copy(s[:], b)
+		p.FromBytes(&s)
+		return &p
+	}
+	// decompression: valid encodings, random strings, non-canonical y, x = 0 with the sign bit, torsion
+	dec := func(s [32]byte, class string) {
+		var p edwards25519.ExtendedGroupElement
+		ok := p.FromBytes(&s)
+		stp := ed25519.VerifStringToPoint(new(edwards25519.ExtendedGroupElement), s)
+		if stp != ok {
+			res.Violate("C16/model-tie:stringToPoint", "stringToPoint and FromBytes disagree (isCanonical is expected to be constant 1)", map[string]interface{}{"s": hexs(s[:])})
+		}
+		x, y := big.NewInt(0), big.NewInt(0)
+		if ok {
+			x, y = feInt(&p.X), feInt(&p.Y)
+		}
+		res.Count(fmt.Sprintf("curve:decompress:%s:%v", class, ok), id([]byte("KD"), s[:]), class != "random" || ok)
+		cv.Add(fmt.Sprintf("KD %s %s %s %s", hx.CoqHex(s[:]), hx.CoqBool(ok), zlit(x), zlit(y)),
+			map[string]interface{}{"kind": "decompress", "class": class, "s": hexs(s[:]), "ok": ok, "x": x.String(), "y": y.String()})
+	}
+	nd := 10
+	if thorough {
+		nd = 120
+	}
+	for i := 0; i < nd; i++ {
+		var s [32]byte
+		copy(s[:], r.Bytes(32))
+		dec(s, "random")
+		var t [32]byte
+		randPoint().ToBytes(&t)
+		dec(t, "valid")
+	}
+	for k := int64(0); k < 19; k += 1 + int64(r.Intn(4)) { // y = p + k, both sign bits
+		for sign := 0; sign < 2; sign++ {
+			y := new(big.Int).Add(pfield, big.NewInt(k))
+			var s [32]byte
+			copy(s[:], scalarBytes(y)[:])
+			s[31] |= byte(sign) << 7
+			dec(s, "non-canonical-y")
+		}
+	}
+	for _, y := range []int64{0, 1, 2} { // y = 1: x = 0 (identity), also with the sign bit set; y = 0: x = +-sqrt(-1)
+		for sign := 0; sign < 2; sign++ {
+			var s [32]byte
+			s[0] = byte(y)
+			s[31] = byte(sign) << 7
+			dec(s, "small-y")
+		}
+	}
+	{
+		ym1 := new(big.Int).Sub(pfield, big.NewInt(1)) // y = -1: the point of order 2
+		var s [32]byte
+		copy(s[:], scalarBytes(ym1)[:])
+		dec(s, "small-y")
+		s[31] |= 0x80
+		dec(s, "small-y")
+		for j := range s {
+			s[j] = 0xff
+		}
+		dec(s, "non-canonical-y")
+	}
+	for i := range torsions {
+		var s [32]byte
+		torsionPoint(i).ToBytes(&s)
+		dec(s, "torsion")
+	}
+	// single steps with exact coordinates: Double, GeSub, ToBytes
+	ns := 60
+	if thorough {
+		ns = 600
+	}
+	for i := 0; i < ns; i++ {
+		P, Q := randPoint(), randPoint()
+		if i%5 == 0 { // P itself (P - P) or a torsion point as second operand
+			if i%10 == 0 {
+				Q = P
+			} else {
+				Q = torsionPoint(i / 5)
+			}
+		}
+		var c edwards25519.CompletedGroupElement
+		var R edwards25519.ExtendedGroupElement
+		P.Double(&c)
+		c.ToExtended(&R)
+		cv.Add(fmt.Sprintf("KB %s %s", ptTerm(P), ptTerm(&R)), map[string]interface{}{"kind": "double"})
+		var cache edwards25519.CachedGroupElement
+		Q.ToCached(&cache)
+		edwards25519.GeSub(&c, P, &cache)
+		c.ToExtended(&R)
+		cv.Add(fmt.Sprintf("KS %s %s %s", ptTerm(P), ptTerm(Q), ptTerm(&R)), map[string]interface{}{"kind": "sub"})
+		res.Count("curve:double+sub", id([]byte("KS"), []byte(ptTerm(P)), []byte(ptTerm(Q))), true)
+		if i%6 == 0 {
+			var o [32]byte
+			R.ToBytes(&o)
+			cv.Add(fmt.Sprintf("KC %s %s", ptTerm(&R), hx.CoqHex(o[:])), map[string]interface{}{"kind": "compress", "out": hexs(o[:])})
+		}
+	}
+	// scalar multiplication on short scalars (the windowed code against double-and-add)
+	nm := 8
+	if thorough {
+		nm = 60
+	}
+	for i := 0; i < nm; i++ {
+		k := new(big.Int).SetBytes(r.Bytes(1 + r.Intn(4)))
+		if i%4 == 3 {
+			k = big.NewInt(int64(r.Intn(17)))
+		}
+		P := randPoint()
+		if i%4 == 1 {
+			P = torsionPoint(i)
+		}
+		var o [32]byte
+		edwards25519.GeScalarMult(P, scalarBytes(k)).ToBytes(&o)
+		cv.Add(fmt.Sprintf("KM %s %s %s", ptTerm(P), zlit(k), hx.CoqHex(o[:])), map[string]interface{}{"kind": "scalarmult", "k": k.String(), "out": hexs(o[:])})
+		var R edwards25519.ExtendedGroupElement
+		edwards25519.GeScalarMultBase(&R, scalarBytes(k))
+		R.ToBytes(&o)
+		cv.Add(fmt.Sprintf("KG %s %s", zlit(k), hx.CoqHex(o[:])), map[string]interface{}{"kind": "scalarmult-base", "k": k.String(), "out": hexs(o[:])})
+		res.Count("curve:scalarmult-short", id([]byte("KM"), k.Bytes(), []byte(ptTerm(P))), true)
+	}
+	// whole verifications: the equations of ECVRFVerify on honest, mutated and small-order-shifted proofs
+	nv := 1
+	if thorough {
+		nv = 6
+	}
+	for i := 0; i < nv && i < len(keys); i++ {
+		k := keys[i]
+		m := r.Bytes(32)
+		honest, _ := vrf.VRFGenProve(k.pk, k.sk, m)
+		verifyCase(k.pk, honest, m, "honest", true)
+		if thorough {
+			verifyCase(k.pk, flip(honest, 32*8+r.Intn(48*8)), m, "mutant", false) // c or s changed: rejected, U and V still correspond
+		}
+		t := torsions[i%3]
+		if sp, ok := shiftedProof(r, k.pk, k.sk, m, t); ok {
+			verifyCase(k.pk, sp, m, "shifted-"+t.name, false)
+			cw.Add(fmt.Sprintf("KT %s %s true true", hx.CoqHex(sp[:32]), hx.CoqHex(honest[:32])), map[string]interface{}{"kind": "torsion-shift", "gamma": hexs(sp[:32]), "honest_gamma": hexs(honest[:32]), "t": t.name})
+			res.Count("curve:shifted-gamma-vs-honest:"+t.name, id([]byte("KT"), sp[:32], honest[:32]), true)
+		}
+		for j, t2 := range torsions {
+			if sp, ok := shiftedProof(r, k.pk, k.sk, m, t2); ok && (thorough || j != i%3) {
+				cv.Add(fmt.Sprintf("KT %s %s true false", hx.CoqHex(sp[:32]), hx.CoqHex(honest[:32])), map[string]interface{}{"kind": "torsion-shift", "gamma": hexs(sp[:32]), "honest_gamma": hexs(honest[:32]), "t": t2.name})
+			}
+		}
+		cv.Add(fmt.Sprintf("KT %s %s false false", hx.CoqHex(honest[:32]), hx.CoqHex(honest[:32])), map[string]interface{}{"kind": "torsion-shift", "gamma": hexs(honest[:32])})
+	}
+}
+
 // ---- the qualification grid ----
 func exactQn(v *big.Int, h, wm, ts uint64, thr uint64) (ok bool, qn int64, nearBelow bool) {
 	// independent exact-arithmetic evaluation of the rule (big.Int only); qn = -1: division by zero,
@@ -589,6 +828,12 @@ func qnCase(v *big.Int, tail []byte, h, wm, ts, thr uint64, tag string) {
 			res.Violate("C16/qn-total:panic", fmt.Sprintf("validateProve panicked: %v", p), in)
 		} else {
 			zeroRatioPanics++
+			if wm > ts && h > thr {
+				res.Violate("C16/qn-total:zero-stake-ratio-panic", fmt.Sprintf("validateProve panics (%v): totalStake %d < workingMiners %d above the difficulty switch height "+
+					"gives difficulty 0, stake ratio 0, and calQn divides by a zero step", p, ts, wm), in)
+			} else {
+				res.Violate("C16/qn-total:panic", fmt.Sprintf("validateProve panicked with a zero stake ratio outside totalStake < workingMiners: %v", p), in)
+			}
 		}
 	case ok:
 		nontrivial = true
@@ -653,8 +898,11 @@ func main() {
 		"the proof encoding starts with >= 1 zero byte; an adversarial case counts when a shifted proof was built; a qn case counts when " +
 		"validateProve accepted or panicked; an isCanonical case counts when the input is a non-reduced encoding; a scalar case counts when " +
 		"s = (c*x+k) mod ell was compared for an honest proof and s + j*ell was submitted to VRFVerify; a purity case counts when the in-place/reordered " +
-		"call sequence of one key was run to the end")
+		"call sequence of one key was run to the end; a curve case counts when values extracted from edwards25519 (decompression of a non-random or valid string, " +
+		"Double/GeSub coordinates, short scalar mults, the U/V of a whole verification, shifted vs honest Gamma) were handed to the curve model")
 	cs = hx.NewCases(a.Out, "From V.C16 Require Import Model Harness.", "case", "check", 300)
+	cv = hx.NewCasesNamed(a.Out, "curve", "From V.C16 Require Import Curve CurveHarness.", "ccase", "check", 30)
+	cw = hx.NewCasesNamed(a.Out, "vrfeq", "From V.C16 Require Import Curve CurveHarness.", "ccase", "check", 1)
 
 	// real configuration: dev chain config, consensus parameters through InitParam
 	common.Init(0, "c16.ini", "dev")
@@ -673,10 +921,6 @@ func main() {
 		fullSweeps = 150
 	}
 	mutants := 0
-	type kp struct {
-		pk vrf.VRFPublicKey
-		sk vrf.VRFPrivateKey
-	}
 	var keys []kp
 	for i := 0; i < a.N; i++ {
 		pk, sk, err := vrf.VRFGenerateKey(bytes.NewReader(r.Bytes(32)))
@@ -943,8 +1187,7 @@ func main() {
 
 	if zeroRatioPanics > 0 {
 		res.Note(fmt.Sprintf("validateProve panicked (big.Rat division by zero in calQn) on %d grid points with totalStake < workingMiners above the difficulty "+
-			"switch height (difficulty 0, stake ratio 0); not counted as a violation of C16 (nothing is accepted), and it needs fewer staked units than recently active proposers, "+
-			"which the minimum proposer stake excludes in practice; validateProve itself does not guard against it", zeroRatioPanics))
+			"switch height; reported under C16/qn-total:zero-stake-ratio-panic (Coq: C16_qn_zero_ratio_panic_refuted / C16_qn_total_guarded)", zeroRatioPanics))
 	}
 
 	// ---------- 6. isCanonical ----------
@@ -987,8 +1230,16 @@ func main() {
 		}
 	}
 
+	// ---------- 7. curve layer ----------
+	t0 = time.Now()
+	curveSection(r, keys, thorough)
+	res.Note(fmt.Sprintf("curve layer: %d single-step cases (decompress / Double / GeSub / ToBytes / short scalar mults) and %d whole-verification or subgroup cases extracted (%.1fs)",
+		cv.Total(), cw.Total(), time.Since(t0).Seconds()))
+
 	cs.Close()
-	res.ModelCases = cs.Total()
+	cv.Close()
+	cw.Close()
+	res.ModelCases = cs.Total() + cv.Total() + cw.Total()
 	res.Write(a.Out)
 	fmt.Printf("c16: evaluations=%d distinct_nontrivial=%d model_cases=%d violations=%d\n", res.Evaluations, res.DistinctNontrivial, res.ModelCases, len(res.Violations))
 	for k, v := range res.Histogram {
